@@ -482,3 +482,78 @@ def spec_unlink(pool, plinks, pre_l, pre_e, a, b, destroy, result):
             for l in joining:
                 ok = ok and (l in result)
     return ok
+
+
+# ---------------------------------------------------------------------------
+# C07: properties of the orders stated directly (independent of the three reference traversals above)
+def hop_distances(uni, start, d, u, ff):
+    """[(vertex, hop distance)] for every reachable in-universe vertex, by layered relaxation"""
+    dist = [(start, 0)]
+    changed = True
+    while changed:
+        changed = False
+        for pair in list(dist):
+            x = pair[0]
+            nbs, exc = ref_neighbors(x, d, u, ff)
+            if exc is not None:
+                return None
+            for w in nbs:
+                if not in_universe(uni, w):
+                    continue
+                known = False
+                for q in dist:
+                    if q[0] is w:
+                        known = True
+                if not known:
+                    dist.append((w, pair[1] + 1))
+                    changed = True
+    # relax to shortest distances
+    changed = True
+    while changed:
+        changed = False
+        i = 0
+        while i < len(dist):
+            x, dx = dist[i]
+            nbs, exc = ref_neighbors(x, d, u, ff)
+            for w in nbs:
+                j = 0
+                while j < len(dist):
+                    if (dist[j][0] is w) and (dist[j][1] > dx + 1):
+                        dist[j] = (w, dx + 1)
+                        changed = True
+                    j = j + 1
+            i = i + 1
+    return dist
+
+
+def distance_of(dist, x):
+    for q in dist:
+        if q[0] is x:
+            return q[1]
+    return -1
+
+
+def bfs_layers_ok(order, dist):
+    """hop distance never decreases along the listing"""
+    i = 0
+    while i + 1 < len(order):
+        if distance_of(dist, order[i]) > distance_of(dist, order[i + 1]):
+            return False
+        i = i + 1
+    return True
+
+
+def preorder_ok(uni, order, d, u, ff):
+    """after a vertex, its first not-yet-listed (in-universe) neighbour comes next, when it has one"""
+    i = 0
+    while i + 1 < len(order):
+        x = order[i]
+        nbs, exc = ref_neighbors(x, d, u, ff)
+        nxt = None
+        for w in nbs:
+            if in_universe(uni, w) and not (w in order[:i + 1]) and (nxt is None):
+                nxt = w
+        if (nxt is not None) and not (order[i + 1] is nxt):
+            return False
+        i = i + 1
+    return True
